@@ -25,7 +25,7 @@ def run(R, tier):
     from . import dispatch as D_
     # private helpers of the numeric module are analysed in place
     _inh = D_.inline_inherent(("scpi_contrib::scpi1999::numeric::",))
-    eng = CB.engine("scpi_contrib", inline=lambda n, r: _inh(n, r) and (next((x for x in uc.bodies if x.npath == r), None) is not None and next((x for x in uc.bodies if x.npath == r)).j.get("vis") == "Restricted"))
+    eng = CB.engine("scpi_contrib", inline=lambda n, r: _inh(n, r) and (next((x for x in uc.bodies if x.npath == r), None) is not None and next((x for x in uc.bodies if x.npath == r)).j.get("vis") == "Restricted"), loop_limit=8)
 
     # ---- R17.1 keyword table --------------------------------------------------------------------------
     bs = [b for ty, b in CV.conversions(uc) if "NumericValue<" in ty]
